@@ -27,11 +27,15 @@ PEER = {
     # is expected (Sta6, Sta7) the provider treats it as an invalid PDU, elsewhere it is just
     # a P-DATA-TF PDU
     'garb': rc.enc_pdata([(1, 3, b'\x07\x00junk-junk-junk')]),
+    # PDUs of a KNOWN type that cannot be decoded (fixed fields missing / bytes left over behind
+    # the last item): invalid PDUs in every state, whatever their type byte says
+    'trunc': rc.enc_pdu(0x05, b'\x00\x00'),
+    'badpd': rc.enc_pdu(0x04, rc.enc_pdata([(1, 3, ECHO_CMD)])[6:] + b'\x00\x00'),
 }
 PEER_EVENT = {'rq': 'Evt6', 'ac': 'Evt3', 'rj': 'Evt4', 'rj2': 'Evt4', 'data': 'Evt10',
               'data2': 'Evt10', 'part': 'Evt10', 'rest': 'Evt10', 'relrq': 'Evt12',
               'relrp': 'Evt13', 'abort': 'Evt16', 'abort2': 'Evt16', 'unk': 'Evt19',
-              'unk0': 'Evt19', 'garb': 'Evt10'}
+              'unk0': 'Evt19', 'garb': 'Evt10', 'trunc': 'Evt19', 'badpd': 'Evt19'}
 
 # user primitives: name -> (event, builder of library object, reference encoding of what must
 # appear on the wire when the action says "send the primitive")
